@@ -1,7 +1,8 @@
 //! Child module of searchlite-core/src/index/fastfields.rs: constructors that let
 //! other harness modules build a `FastFieldsReader` directly from column values
-//! (its `fields` map is private).  The map type of this file is the Vec-backed
-//! container model (hash tables are out of reach for CBMC, DESIGN 2.2).
+//! (its `fields` map and the `Column` enum are private).  The map type of this
+//! file is the Vec-backed container model (hash tables are out of reach for
+//! CBMC, DESIGN 2.2).  All builders describe ONE document (doc id 0).
 //@@ crate: searchlite-core
 //@@ attach: searchlite-core/src/index/fastfields.rs
 //@@ rewrite: searchlite-core/src/index/fastfields.rs :: use std::collections::HashMap; ==> use crate::verif_models::HashMap;
@@ -11,4 +12,87 @@ pub(crate) fn empty_reader() -> FastFieldsReader {
   FastFieldsReader {
     fields: HashMap::new(),
   }
+}
+
+fn key(prefix: &str, name: &str) -> String {
+  let mut k = String::with_capacity(prefix.len() + name.len());
+  k.push_str(prefix);
+  k.push_str(name);
+  k
+}
+
+fn v1<T>(a: T) -> Vec<T> {
+  let mut v = Vec::with_capacity(1);
+  v.push(a);
+  v
+}
+
+fn offs(n: usize) -> Vec<u32> {
+  // offsets [0, n] : one document holding n entries
+  let mut v = Vec::with_capacity(2);
+  v.push(0);
+  v.push(n as u32);
+  v
+}
+
+pub(crate) fn add_i64(r: &mut FastFieldsReader, name: &str, v: Option<i64>) {
+  r.fields.insert(key("", name), Column::I64(v1(v)));
+}
+
+pub(crate) fn add_f64(r: &mut FastFieldsReader, name: &str, v: Option<f64>) {
+  r.fields.insert(key("", name), Column::F64(v1(v)));
+}
+
+pub(crate) fn add_i64_list(r: &mut FastFieldsReader, name: &str, values: Vec<i64>) {
+  let offsets = offs(values.len());
+  r.fields.insert(key("", name), Column::I64List { offsets, values });
+}
+
+pub(crate) fn add_str(r: &mut FastFieldsReader, name: &str, dict: Vec<String>, idx: Option<u32>) {
+  r.fields.insert(key("", name), Column::Str { dict, values: v1(idx) });
+}
+
+pub(crate) fn add_str_list(r: &mut FastFieldsReader, name: &str, dict: Vec<String>, values: Vec<u32>) {
+  let offsets = offs(values.len());
+  r.fields.insert(key("", name), Column::StrList { dict, offsets, values });
+}
+
+/// `objects` objects under `path` in document 0.
+pub(crate) fn add_nested_count(r: &mut FastFieldsReader, path: &str, objects: u32) {
+  r.fields.insert(key("_nested_count:", path), Column::NestedCount(v1(objects)));
+}
+
+/// parent object index of each object under `path` (u32::MAX = top level).
+pub(crate) fn add_nested_parents(r: &mut FastFieldsReader, path: &str, parents: Vec<u32>) {
+  let offsets = offs(parents.len());
+  r.fields.insert(key("_nested_parent:", path), Column::NestedParent { offsets, parents });
+}
+
+/// One value per object: object i of document 0 holds exactly `values[i]`.
+pub(crate) fn add_i64_nested_single(r: &mut FastFieldsReader, name: &str, values: Vec<i64>) {
+  let n = values.len();
+  let mut object_offsets = Vec::with_capacity(n + 1);
+  let mut i = 0;
+  while i <= n {
+    object_offsets.push(i as u32);
+    i += 1;
+  }
+  r.fields.insert(
+    key("", name),
+    Column::I64Nested {
+      doc_offsets: offs(n),
+      object_offsets,
+      values,
+    },
+  );
+}
+
+/// Concatenation equivalents of the three `format!`-based key builders (the real
+/// `format!` machinery costs 10-15 minutes of symbolic execution per call).
+pub(crate) fn concat_nested_count_key(path: &str) -> String {
+  key("_nested_count:", path)
+}
+
+pub(crate) fn concat_nested_parent_key(path: &str) -> String {
+  key("_nested_parent:", path)
 }
